@@ -41,7 +41,7 @@ def run_demo():
     names = []
     for d in demos:
         names += re.findall(r'^func (Test\w+)\(', open(d).read(), flags=re.M)
-    race = '-race ' if any('//go:build race' in open(d).read() for d in demos if os.path.isfile(d)) else ''
+    race = '-race ' if (os.environ.get('SEED_RACE') or any('//go:build race' in open(d).read() for d in demos if os.path.isfile(d))) else ''
     return sh(f"go test {race}-vet=off -count=1 -run '^({'|'.join(names)})$' .", cwd=wt, timeout=900)
 # unchanged tree: demo passes
 put_demo(); rc0, o0 = run_demo(); rm_demo()
